@@ -32,14 +32,16 @@ SPEC = dict(
     level_text=("Theorems: for every program term of the modelled safe top-level fragment (sources, map/filter/flat_map/"
                 "filter_map, enumerate, scan incl. termination, unique, keyed scan, merge_unordered, chain with a bounded "
                 "first side, join of two unbounded streams = join_multiset<'static,'static> -> multiset_delta, fold, reduce, "
-                "keyed fold, fold of a top-level bounded stream = fold_no_replay, cross_singleton with a top-level bounded "
-                "singleton, singleton/optional map and filter) that is well-kinded by the safe-API typing rules, and for "
+                "keyed fold, fold/reduce of a top-level bounded stream = fold_no_replay/reduce_no_replay, cross_singleton with a "
+                "top-level bounded singleton, join / anti_join / filter_not_in with a top-level bounded side = "
+                "join_multiset_half<'static,'tick> / anti_join<'tick,'static> / difference<'tick,'static>, singleton/optional "
+                "map and filter) that is well-kinded by the safe-API typing rules, and for "
                 "EVERY partition of the inputs into ticks, the accumulated output of the per-tick DFIR model equals the "
                 "stream-level meaning on the whole inputs (sequence for TotalOrder/keyed, multiset for NoOrder, last value "
                 "for singleton/optional/keyed singleton) — `program_eventually_deterministic`, by induction on the term; "
                 "`partition_independent` is the corollary for two arbitrary partitions. The model is tied to the code by "
                 "(T) re-extracting on every run which DFIR operator and lifetime emit_core chooses per HydroNode variant "
-                "(theorem `lowering_table_matches`) and (C) compiling 85 corpus programs (hand-written + generated "
+                "(theorem `lowering_table_matches`) and (C) compiling 108 corpus programs (hand-written + generated "
                 "compositions) through FlowBuilder::generate_embedded in build.rs, running them in-process tick by tick "
                 "under all / random partitions and diffing every tick's output and the final output with the Lean driver; "
                 "the property itself is checked on the real code against a plain-Rust-iterator reference and across partitions."),
@@ -47,12 +49,13 @@ SPEC = dict(
                 "dfir_lang/src/graph/ops/*.rs (tied only by correspondence); hash iteration order is canonicalised by "
                 "sorting for NoOrder / keyed-singleton outputs; tee is modelled as duplication of a deterministic sub-term; "
                 "merge_ordered, resolve_futures, networking, atomic regions, reduce/unique-by-key on NoOrder input, "
-                "anti_join/difference/join_half at top level, cycles (forward_ref) are outside the modelled fragment; "
+                "cross_product, keyed reduce, sample/timeout, cycles (forward_ref) are outside the modelled fragment; "
                 "the observer uses snapshot/assume_ordering (nondet) only to read the collections."),
     trusted_base=["per-tick semantics of DFIR operators (fold/reduce/scan/unique/enumerate/join_multiset/multiset_delta/"
                   "cross_singleton/fold_no_replay/chain) transcribed from dfir_lang/src/graph/ops, exercised by correspondence",
                   "harness/hv_hydro/gen_programs.py maps program terms to Rust programs (checked to be reproducible each run)",
                   "FxHashMap/FxHashSet iteration order canonicalised by sorting"],
+    # finding F281 (fixed in /repo fca9e7739ab): filter_not_in recorded Bounded metadata -> fold_no_replay on an unbounded stream
     assumptions=["closures passed to q!() are pure and total; commutativity proofs supplied by the user hold (Term.WF)",
                  "at least one tick runs; top-level bounded sources deliver all their data in the first tick",
                  "i64 arithmetic does not overflow on the generated inputs"],
